@@ -1129,7 +1129,7 @@ class Interp:
         for o in t.get("ops", []):
             v = self.operand(state, fid, o)
             ops_.append(repr(v))
-        site = "%s : %s" % (body.name, kind)
+        site = "%s : %s(%s)" % (body.name, kind, ", ".join(_opshape(body, o) for o in t.get("ops", [])))
         self.obligations.append({"site": site, "kind": kind, "ok": ok, "ops": ops_, "loc": span_loc(sp), "ctx": self.ctx_label,
                                  "body": body.name, "line_in_fn": (sp.get("line", 0) - (body.j["span"] or {}).get("line", 0))})
 
@@ -1164,8 +1164,18 @@ class Interp:
         return [(t["target"], st2)]
 
     def call(self, state, callee, name, args, body, term):
-        if name in self.watch or (callee.get("path") in self.watch):
-            pass
+        if callee.get("path") in ("std::ops::Fn::call", "std::ops::FnMut::call_mut", "std::ops::FnOnce::call_once") and len(args) == 2:
+            # closure call protocol: arguments arrive tupled, the closure body takes them untupled
+            tup = args[1]
+            f = args[0]
+            if isinstance(tup, TupleV):
+                fv = f
+                if isinstance(fv, RefV):
+                    fv = self.get_path(state, fv.cell, fv.proj)
+                if isinstance(fv, (ClosureV, FnV)):
+                    return self.call_value(state, fv, list(tup.items))
+                if name in self.facts.bodies:
+                    return self.run_body(state, self.facts.bodies[name], [f] + list(tup.items))
         m = self.models.lookup(callee, name) if self.models else None
         if m is not None:
             st2, rv = m(self, state, callee, args, body, term)
@@ -1215,6 +1225,23 @@ class _Variant:
 
     def __init__(self, payload):
         self.payload = tuple(payload)
+
+
+def _opshape(body, o):
+    if "const" in o:
+        c = o["const"]
+        return str(c.get("int", c.get("ty")))
+    pl = o.get("copy") or o.get("move")
+    if pl is None:
+        return "?"
+    nm = body.locals[pl["local"]].get("name")
+    s = nm if nm else "_"
+    for p in pl["proj"]:
+        if p["k"] == "field":
+            s += "." + str(p.get("name") if p.get("name") is not None else p["i"])
+        elif p["k"] == "deref":
+            s = "*" + s
+    return s
 
 
 def _is_num(s):
